@@ -11,3 +11,4 @@ CONSTANTS
   MaxDepth = 3
   Emit = TRUE
   CheckDump = FALSE
+  ExcuseKnown = TRUE
